@@ -23,8 +23,8 @@ RULE = ("case = legal generated design + one injected structural defect (second 
         "orderings (order.stmt, order.flip, order.hash); plus the converse: the uninjected design must elaborate for "
         "every ordering; plus probes of known findings; non-trivial = the injected defect was rejected with an expected "
         "error class in every ordering; distinct = case digest")
-TIERS = {"quick": {"runs": 640, "budget_s": 100, "chunk": 4},
-         "thorough": {"runs": 60000, "budget_s": 1800, "chunk": 8}}
+TIERS = {"quick": {"runs": 1280, "budget_s": 100, "chunk": 4},
+         "thorough": {"runs": 200000, "budget_s": 1800, "chunk": 8}}
 REAL = ["ComponentLevel2._check_upblk_writes / _check_port_in_upblk / assignment-operator checks",
         "ComponentLevel3._resolve_value_connections / _floodfill_nets / _check_port_in_nets", "dsl.errors"]
 STUB = ["design generator", "defect injector", "bit-level driver analysis of the mutated spec"]
